@@ -174,3 +174,36 @@ func H_FilteredWatch() {
 	}
 	verif.Assert((n == 1) == (oldIn || newIn), "exactly one event iff the resource is in the filtered set before or after")
 }
+
+// H_SitesAgreeNumeric: the numeric comparison operators (with unit suffixes and inversion) mean the
+// same in the definition, in List on the in-memory state and after translation over gRPC.
+func H_SitesAgreeNumeric() {
+	ctx := context.Background()
+	tres.RegisterProto()
+	backend := namespaced.NewState(inmem.Build)
+	st := state.WrapCore(backend)
+	remote := state.WrapCore(c11.NewRemote(backend))
+	r := tres.NewA(tres.NS, "a", "s")
+	switch verif.Choose("labelValue", 4) {
+	case 0:
+		r.Metadata().Labels().Set("k", "5")
+	case 1:
+		r.Metadata().Labels().Set("k", "10")
+	case 2:
+		r.Metadata().Labels().Set("k", "1Ki")
+	} // 3: label absent
+	verif.Assert(st.Create(ctx, r) == nil, "create")
+	term := resource.LabelTerm{Key: "k", Invert: verif.Choose("invert", 2) == 1, Value: []string{[]string{"10", "1k", "abc"}[verif.Choose("operand", 3)]}}
+	term.Op = []resource.LabelOp{resource.LabelOpLTNumeric, resource.LabelOpLTENumeric}[verif.Choose("op", 2)]
+	q := resource.LabelQuery{Terms: []resource.LabelTerm{term}}
+	want := q.Matches(*r.Metadata().Labels())
+	direct, err := st.List(ctx, kind(), state.WithLabelQuery(resource.RawLabelQuery(q)))
+	verif.Assert(err == nil && has(direct, "a") == want, "List applies the numeric selector as defined")
+	viaRPC, err := remote.List(ctx, kind(), state.WithLabelQuery(resource.RawLabelQuery(q)))
+	verif.Assert(err == nil && has(viaRPC, "a") == want, "the numeric selector means the same after translation over gRPC")
+	if want {
+		verif.Cover("numeric match")
+	} else {
+		verif.Cover("numeric no match")
+	}
+}
